@@ -509,11 +509,46 @@ class C13(Prop):
         pe = bool(rules.get("pes", {}).get("matched"))
         return {"params": getter_vec, "fp": fp, "nm": nm, "syms": syms, "console": console, "pe": pe}
 
+    def decode_logs(self, case, scan):
+        """(console tag, logged symbol values) of one scan"""
+        if scan.get("error") is not None:
+            raise Bad("scan error %r" % scan["error"])
+        tags, kv = set(), {}
+        for line in scan["logs"]:
+            tag, _, msg = line.partition("|")
+            tags.add(tag)
+            k, _, v = msg.partition("=")
+            if k in kv and kv[k] != v:
+                raise Bad("two values logged for %s in one scan" % k)
+            kv[k] = v
+        if len(tags) > 1:
+            raise Bad("messages of one scan went to two callbacks")
+        return (tags.pop() if tags else None), kv
+
+    def check_other_apis(self, case, m, vec):
+        """callback and fragmented entry points see the same symbols, module data and parameters"""
+        ref = self.decode_logs(case, m["probe"])
+        ref_rules = {r["name"] for r in m["probe"]["rules"] if r["matched"]}
+        bools = {"p_" + s["name"] for s in case["csymbols"] if "bool" in s}
+        for o in m.get("other", []):
+            if self.decode_logs(case, o) != ref:
+                raise Bad("api %s logged something else than scan_mem" % o["api"])
+            if "rules" in o:
+                got = {r["name"] for r in o["rules"] if r["matched"]}
+                if got & bools != ref_rules & bools:
+                    raise Bad("api %s: boolean symbols differ" % o["api"])
+                if ("never" in {r["name"] for r in o["rules"]}) != (vec[3] == 1):
+                    raise Bad("api %s: include_not_matched_rules not honoured" % o["api"])
+            elif vec[7] & 1:       # RULE_MATCH events enabled
+                if set(o["matched"]) & bools != ref_rules & bools:
+                    raise Bad("api %s: boolean symbols differ" % o["api"])
+
     def decode_member(self, case, m):
         vec = params_vec(m["params"])
         if m["params"].get("timeout") is not None:
             raise Bad("timeout set")
         o = self.decode_scan(case, m["probe"], vec)
+        self.check_other_apis(case, m, vec)
         if "probe_pe" in m:
             o2 = self.decode_scan(case, m["probe_pe"], vec)
             if (o2["syms"], o2["console"], o2["nm"]) != (o["syms"], o["console"], o["nm"]):
